@@ -1,6 +1,6 @@
 (* Pinned statements of C04 (generated once by tools/mkpins.py from coq/props/C04.v, then committed). *)
 From DV Require Import Model.Base Model.Parser Model.Header Model.Readers Spec.NameSpec Spec.RecordSpec Proofs.Hoare Proofs.HeaderBits
-  Proofs.SummaryBits Proofs.ReadersLabels Proofs.QuestionSpec Proofs.EdnsFacts props.C04.
+  Proofs.SummaryBits Proofs.ReadersLabels Proofs.QuestionSpec Proofs.EdnsFacts Proofs.WalkSkip Proofs.EdnsPlain props.C04.
 Local Open Scope N_scope.
 Check (C04_flags_word : forall w x i, w < 65536 ->
   N.testbit (w_flags w x) i =
@@ -29,3 +29,12 @@ Check (C04_question_decoding_unique : forall p ls t c ls' t' c',
 Print Assumptions C04_question_decoding_unique.
 Check (C04_edns_summary : forall p v, bytes_ok p -> parse p = Ok v -> esum_v p v).
 Print Assumptions C04_edns_summary.
+Check (C04_summary_of_opt_record : forall p v, bytes_ok p -> parse p = Ok v ->
+  exists an ns ar qe e1 e2 la ln lr,
+    pp_packet v = p /\ cname p 12 qe /\
+    hdr_ancount p = Ok an /\ hdr_nscount p = Ok ns /\ hdr_arcount p = Ok ar /\
+    records_at p (qe + 4) la e1 /\ length la = N.to_nat an /\
+    records_at p e1 ln e2 /\ length ln = N.to_nat ns /\
+    records_at p e2 lr (length p) /\ length lr = N.to_nat ar /\
+    summary_of p (find is_opt (la ++ ln ++ lr)) v).
+Print Assumptions C04_summary_of_opt_record.
